@@ -1,7 +1,7 @@
 #!/bin/bash
-# usage: tools/import_mutant.sh <PROP> <A|B> <detected-by "C02,C04"|none> "<what I ran / result>"
+# usage: [MUT_SRC=/tmp/mut2] tools/import_mutant.sh <PROP> <A|B|C|D> <detected-by "C02,C04"|none> "<what I ran / result>"
 prop=$1; ab=$2; by=$3; ran=$4
-src=/tmp/mut/$prop/_out
+src=${MUT_SRC:-/tmp/mut2}/$prop/_out
 dst=/verif/seeded/$prop-$ab
 mkdir -p $dst
 cp $src/$ab.patch.diff $dst/patch.diff
@@ -13,7 +13,7 @@ try: m=json.load(open(src))
 except Exception as e: m={"property":prop,"summary":"(agent meta unreadable: %s)"%e}
 out={"property":prop,"breaks":m.get("summary"),"why_it_breaks":m.get("why_it_breaks"),"needs_to_manifest":m.get("needs_to_manifest"),
      "files":m.get("files"),"demo_cmd":m.get("demo_cmd"),"author":"independent sub-agent given only the property text and a scratch worktree",
-     "confirmed":"patch applies to /repo HEAD, builds, existing suite passes (agent + re-checked), demo fails with / passes without the change",
+     "confirmed":"agent only so far; run tools/confirm_seeded.sh",
      "detected_by":[] if by=="none" else by.split(","),"what_i_ran":ran}
 json.dump(out,open(dst,'w'),indent=1)
 PY
